@@ -1,6 +1,8 @@
 ----------------------------- MODULE SQuadShape -----------------------------
 (* Shape table of SQuad.cumsum / SQuad.integrate: y of rank 1..MaxRank whose dimension `dim` (negative indices     *)
 (* allowed) has the length of the sample positions; all other dimensions are untouched and keep their order.        *)
+(* A y of any other length along `dim` is rejected - longer, shorter, and also length 1 (which would broadcast       *)
+(* silently against the weights).                                                                                    *)
 EXTENDS Integers, Sequences, TLC
 CONSTANTS MaxRank, NX
 VARIABLES rank, dim, keepdim, mismatch, unit, pred
@@ -9,13 +11,15 @@ vars == <<rank, dim, keepdim, mismatch, unit, pred>>
 \* 0 = none) may have size 1 - a size-1 dimension is a dimension like any other, it is neither dropped nor broadcast
 Other(k) == IF k = unit THEN 1 ELSE k + 1
 Pos == IF dim < 0 THEN dim + rank + 1 ELSE dim + 1      \* 1-based position of the integrated dimension
-YShape == [k \in 1..rank |-> IF k = Pos THEN (IF mismatch THEN NX + 1 ELSE NX) ELSE Other(k)]
+Mismatches == {"none", "longer", "shorter", "one"}
+LenAlong == CASE mismatch = "none" -> NX [] mismatch = "longer" -> NX + 1 [] mismatch = "shorter" -> NX - 1 [] mismatch = "one" -> 1
+YShape == [k \in 1..rank |-> IF k = Pos THEN LenAlong ELSE Other(k)]
 Without(s, p) == [k \in 1..(Len(s) - 1) |-> IF k < p THEN s[k] ELSE s[k + 1]]
-Predict == IF mismatch THEN [ok |-> FALSE, cumsum |-> <<>>, integrate |-> <<>>]
+Predict == IF mismatch # "none" THEN [ok |-> FALSE, cumsum |-> <<>>, integrate |-> <<>>]
            ELSE [ok |-> TRUE, cumsum |-> YShape,
                  integrate |-> IF keepdim THEN [YShape EXCEPT ![Pos] = 1] ELSE Without(YShape, Pos)]
-Init == /\ rank \in 1..MaxRank /\ dim \in (-rank)..(rank - 1) /\ keepdim \in BOOLEAN /\ mismatch \in BOOLEAN
-        /\ unit \in 0..rank /\ unit # Pos /\ (mismatch => unit = 0) /\ pred = Predict
+Init == /\ rank \in 1..MaxRank /\ dim \in (-rank)..(rank - 1) /\ keepdim \in BOOLEAN /\ mismatch \in Mismatches
+        /\ unit \in 0..rank /\ unit # Pos /\ (mismatch # "none" => unit = 0) /\ pred = Predict
 Next == UNCHANGED vars
 Spec == Init /\ [][Next]_vars
 Sane == pred.ok => (Len(pred.cumsum) = rank /\ Len(pred.integrate) = (IF keepdim THEN rank ELSE rank - 1))
